@@ -151,7 +151,7 @@ def _seq_job(job):
     r = random.Random('c14s/%d/%d' % (seed, k))
     g = G.Gen(r, G.Profile(matlab_safe=True, max_decls=6, p_template=0.15))
     m = g.module()
-    text = G.text(G.tokens(m))
+    text = G.text(G.tokens(m)) + ' namespace c14 { class Mine { Mine(); }; } '     # shares the package +c14 with other.i
     names = classes_of(m)
     d = scratch()
     try:
@@ -181,7 +181,14 @@ def _seq_job(job):
         alone_dir = os.path.join(d, 'alone')
         os.makedirs(alone_dir)
         alone = drive(src, alone_dir, last['top'], last['boost'] == '1', [x for x in last['ign'].split(',') if x], 0, d, None)
-        return {'text': text, 'runs': [{a: b for a, b in x.items() if a != 'outdir'} for x in runs],
+        removed = []
+        if shared and len(lines) == len(runs):
+            # files of the toolbox that one run wrote and a LATER run of the sequence made disappear
+            for i in range(len(lines) - 1):
+                a, b = lines[i].get('matlab'), lines[i + 1].get('matlab')
+                if isinstance(a, dict) and isinstance(b, dict):
+                    removed += ['run %d removed %s' % (i + 2, f) for f in sorted(a) if f not in b]
+        return {'text': text, 'runs': [{a: b for a, b in x.items() if a != 'outdir'} for x in runs], 'removed': removed,
                 'in_sequence': lines[-1] if len(lines) == len(runs) else {'error': p.stderr[-300:]}, 'alone': alone}
     finally:
         shutil.rmtree(d, ignore_errors=True)
@@ -194,6 +201,12 @@ def sequence_experiment(rep, seed, n):
     for res in results:
         rep.hit(common.sha(res['text'] + repr(res['runs'])), True)
         a, b = res['in_sequence'], res['alone']
+        if res.get('removed'):
+            if shown < 3:
+                shown += 1
+                rep.violation({'kind': 'counterexample', 'what': 'a generator run deleted files of the output directory that it was not '
+                               'asked to produce: %s' % res['removed'][:4], 'input': res['text'], 'runs_in_one_directory': res['runs']})
+            continue
         if 'error' in a or 'error' in b:
             rep.violation({'kind': 'harness-error', 'what': 'sequence driver failed', 'detail': [a, b]}, no_input=True)
             continue
